@@ -33,6 +33,7 @@ type Frame struct {
 	ret     []Value
 	tail    *tailCall
 	gotoLbl string
+	tails   int // activations this one replaced by tail calls
 }
 
 type thread struct {
@@ -191,11 +192,22 @@ func (in *Interp) curSite() *last.Site {
 // running Lua function).
 func (in *Interp) siteAtLevel(level int) *last.Site {
 	fr := in.th.frames
-	i := len(fr) - level
-	if i < 0 || i >= len(fr) {
+	if level < 1 {
 		return nil
 	}
-	return fr[i].site
+	// lua_getstack: every activation stands for itself and, below it, for the
+	// activations it replaced by tail calls; those have no position
+	lv := level - 1
+	for i := len(fr) - 1; i >= 0; i-- {
+		if lv == 0 {
+			return fr[i].site
+		}
+		lv -= 1 + fr[i].tails
+		if lv < 0 {
+			return nil
+		}
+	}
+	return nil
 }
 
 // RTError raises a run-time fault at the current position.
@@ -652,6 +664,7 @@ func (in *Interp) resolveCallable(fn Value, args []Value) (Value, []Value) {
 
 // Call calls fn with args and returns all results. Tail calls are a loop.
 func (in *Interp) Call(fn Value, args []Value) []Value {
+	tails := 0
 	for {
 		in.step()
 		fn, args = in.resolveCallable(fn, args)
@@ -659,16 +672,17 @@ func (in *Interp) Call(fn Value, args []Value) []Value {
 		case *Builtin:
 			return f.Fn(in, args)
 		case *Closure:
-			res, tc := in.callClosure(f, args)
+			res, tc := in.callClosure(f, args, tails)
 			if tc == nil {
 				return res
 			}
 			fn, args = tc.fn, tc.args
+			tails++
 		}
 	}
 }
 
-func (in *Interp) callClosure(cl *Closure, args []Value) ([]Value, *tailCall) {
+func (in *Interp) callClosure(cl *Closure, args []Value, tails int) ([]Value, *tailCall) {
 	th := in.th
 	th.depth++
 	if th.depth > in.MaxDepth {
@@ -682,7 +696,7 @@ func (in *Interp) callClosure(cl *Closure, args []Value) ([]Value, *tailCall) {
 		th.depth--
 		in.RTError("stack overflow")
 	}
-	fr := &Frame{cl: cl}
+	fr := &Frame{cl: cl, tails: tails}
 	th.frames = append(th.frames, fr)
 	defer func() {
 		th.frames = th.frames[:len(th.frames)-1]
@@ -1042,16 +1056,27 @@ func (in *Interp) execStmt(s last.Stmt, sc *Scope, fr *Frame) (ctl, *Scope) {
 				fn := in.eval(c.Fn, sc, fr)
 				args := in.evalList(c.Args, sc, fr)
 				fn, args = in.resolveCallable(fn, args)
-				fr.tail = &tailCall{fn: fn, args: args}
 				in.kind(in.StmtKinds, "tailcall")
+				if b, ok := fn.(*Builtin); ok {
+					// a host function runs on top of the activation that tail-calls it
+					in.step()
+					fr.ret = b.Fn(in, args)
+					return ctlReturn, sc
+				}
+				fr.tail = &tailCall{fn: fn, args: args}
 				return ctlReturn, sc
 			case *last.EMethod:
 				obj := in.eval(c.Obj, sc, fr)
 				fn := in.Index(obj, c.Name)
 				args := append([]Value{obj}, in.evalList(c.Args, sc, fr)...)
 				fn, args = in.resolveCallable(fn, args)
-				fr.tail = &tailCall{fn: fn, args: args}
 				in.kind(in.StmtKinds, "tailcall")
+				if b, ok := fn.(*Builtin); ok {
+					in.step()
+					fr.ret = b.Fn(in, args)
+					return ctlReturn, sc
+				}
+				fr.tail = &tailCall{fn: fn, args: args}
 				return ctlReturn, sc
 			}
 		}
